@@ -301,6 +301,7 @@ type wWriter interface {
 	close() error
 	columnWriters() []*parquet.ColumnWriter
 	reset(out io.Writer)
+	setKV(k, v string)
 }
 
 type wGeneric struct{ w *parquet.GenericWriter[wRow] }
@@ -310,6 +311,7 @@ func (g wGeneric) flush() error                           { return g.w.Flush() }
 func (g wGeneric) close() error                           { return g.w.Close() }
 func (g wGeneric) columnWriters() []*parquet.ColumnWriter { return g.w.ColumnWriters() }
 func (g wGeneric) reset(out io.Writer)                    { g.w.Reset(out) }
+func (g wGeneric) setKV(k, v string)                      { g.w.SetKeyValueMetadata(k, v) }
 
 type wAny struct {
 	w    *parquet.Writer
@@ -335,6 +337,7 @@ func (a wAny) flush() error                           { return a.w.Flush() }
 func (a wAny) close() error                           { return a.w.Close() }
 func (a wAny) columnWriters() []*parquet.ColumnWriter { return a.w.ColumnWriters() }
 func (a wAny) reset(out io.Writer)                    { a.w.Reset(out) }
+func (a wAny) setKV(k, v string)                      { a.w.SetKeyValueMetadata(k, v) }
 
 func wNew(api string, out io.Writer, opts []parquet.WriterOption) wWriter {
 	switch api {
